@@ -372,11 +372,13 @@ pub fn run(prop: &str) -> Report {
                 }
             }
         }
-        items.push(Item::W(cname, 0));
-        items.push(Item::W(cname, 1));
-        items.push(Item::W(cname, 2));
-        if cname == "bitcoin" {
-            items.push(Item::W(cname, 3));
+        // the special worlds (output-index widths, large values, every script kind, big UTXO set): all of them on bitcoin,
+        // all but the last (250 000 outputs) on the other coins
+        let n_special = index_width_cases(coin(cname)).len();
+        for k in 0..n_special {
+            if k + 1 < n_special || cname == "bitcoin" {
+                items.push(Item::W(cname, k));
+            }
         }
     }
     let cap = wall_cap();
